@@ -244,6 +244,21 @@ where
         }
         self.storage.batch_set(updates).await?;
 
+        // Compute the new root hash while the transaction is still open (the root node is served from the
+        // transaction log): once the commit has been accepted, nothing is left that could fail and make
+        // this call report an error for a publish that did take effect.
+        let root_hash = match current_azks
+            .get_root_hash_safe::<TC, _>(&self.storage, next_epoch)
+            .await
+        {
+            Ok(root_hash) => root_hash,
+            Err(err) => {
+                error!("Failed to compute the new root hash, rolling back");
+                let _ = self.storage.rollback_transaction();
+                return Err(err);
+            }
+        };
+
         // Commit the transaction
         info!("Committing transaction");
         match self.storage.commit_transaction().await {
@@ -256,10 +271,6 @@ where
                 return Err(AkdError::Storage(err));
             }
         };
-
-        let root_hash = current_azks
-            .get_root_hash_safe::<TC, _>(&self.storage, next_epoch)
-            .await?;
 
         Ok(EpochHash(next_epoch, root_hash))
     }
